@@ -5,6 +5,7 @@
   names, commit "fix: store check ignores files with invalid user names").
 -/
 import Whawty.Lemmas.StoreCheck
+import Whawty.Lemmas.Path
 import Whawty.Props.C01
 namespace Whawty.Store.C03
 open Whawty Whawty.Rec Whawty.Store
@@ -151,5 +152,72 @@ example : validName [] = false := by decide
 example : validName [97, 10] = false := by decide              -- "a\n"
 example : validName [46, 47, 97] = false := by decide          -- "./a"
 example : validName [97, 46, 98, 64, 99] = true := by decide   -- "a.b@c"
+
+/-! ### The path the code computes for a valid name is an entry of the base directory
+
+`UserHash.getFilename` is `filepath.Join(BaseDir, user) + ext` — a LEXICAL computation
+(`Model/Path.lean`: byte-for-byte model of `filepath.Clean` / `Join`, compared with Go on every
+run). For every base directory string whatsoever and every valid name, the result has exactly
+the components of the cleaned base directory followed by the single component `user ++ ext`:
+it names the entry `<user><ext>` directly inside the base directory, which is what the
+directory-map model (`Store.Dir`) and the trace vocabulary (`Persist.Name.U/.A`) assume. -/
+namespace Path
+open Whawty.Path
+
+theorem valid_is_plain (u : Bytes) (h : validName u = true) : Plain u := by
+  obtain ⟨h1, _, _, h4, h5, h6⟩ := valid_name_has_no_path_syntax u h
+  exact ⟨h4, h5, h6, h1⟩
+
+/-- Join with a plain component pushes exactly that component. -/
+theorem join_plain (base u : Bytes) (hb : base ≠ []) (hu : Plain u) :
+    join2 base u = render (isRooted base) (comps base ++ [u]) := by
+  have hune : u ≠ [] := hu.1
+  have hne : base ++ slash :: u ≠ [] := by simp
+  have hroot : isRooted (base ++ slash :: u) = isRooted base := by
+    cases base with
+    | nil => exact absurd rfl hb
+    | cons c rest => rfl
+  simp only [join2, hb, hune, false_and, if_false, clean, hne, hroot, comps]
+  rw [splitSlash_append_comp base u hu.2.2.2, cleanStack_append, cleanStack_plain _ _ u hu]
+  simp
+
+theorem clean_eq_render (base : Bytes) (hb : base ≠ []) : clean base = render (isRooted base) (comps base) := by
+  simp [clean, hb]
+
+/-- **The file a valid name addresses.** -/
+theorem file_path_is_entry_of_base (base u : Bytes) (adm : Bool) (hb : base ≠ []) (hv : validName u = true) :
+    getFilename base u (if adm then adminExt else userExt) =
+      render (isRooted base) (comps base ++ [fileName u adm]) := by
+  have hp := valid_is_plain u hv
+  simp only [getFilename, join_plain base u hb hp, render, fileName]
+  have hne : comps base ++ [u] ≠ [] := by simp
+  have hne2 : comps base ++ [u ++ if adm then adminExt else userExt] ≠ [] := by simp
+  by_cases hr : isRooted base = true
+  · simp only [hr, if_true, List.cons_append, joinSlash_append_ext]
+  · simp only [hr, Bool.false_eq_true, if_false, hne, hne2, joinSlash_append_ext]
+
+/-- In the usual case (the cleaned base directory is neither "/" nor "."): literally
+    `<clean base>/<user><ext>`. -/
+theorem file_path_literal (base u : Bytes) (adm : Bool) (hb : base ≠ []) (hv : validName u = true)
+    (hc : comps base ≠ []) :
+    getFilename base u (if adm then adminExt else userExt) = clean base ++ slash :: fileName u adm := by
+  rw [file_path_is_entry_of_base base u adm hb hv, clean_eq_render base hb]
+  simp only [render, joinSlash_append_single, hc, if_false]
+  by_cases hr : isRooted base = true
+  · simp [hr]
+  · have : comps base ++ [fileName u adm] ≠ [] := by simp
+    simp [hr, this]
+
+/- Why the grammar check is needed in EVERY operation (defect D1, repaired): for names outside
+   the grammar the same computation leaves the base directory or aliases another entry. -/
+example : join2 (str "/srv/store") (str "../other/bob") = str "/srv/other/bob" := by decide +kernel
+example : join2 (str "/srv/store") (str "./admin") = str "/srv/store/admin" := by decide +kernel
+example : getFilename (str "/srv/store") [] adminExt = str "/srv/store.admin" := by decide +kernel
+example : getFilename (str "/srv/store") (str "a/../bob") userExt = str "/srv/store/bob.user" := by decide +kernel
+/- Non-vacuity of the theorem above, on a base directory that itself needs cleaning. -/
+example : getFilename (str "/srv//x/../store/") (str "alice") userExt = str "/srv/store/alice.user" := by decide +kernel
+example : comps (str "/srv//x/../store/") = [str "srv", str "store"] := by decide +kernel
+
+end Path
 
 end Whawty.Store.C03
